@@ -230,6 +230,5 @@ def cases(tier):
     if tier == "thorough":
         out.append(("condensed_vs_threefield", case_condensed_vs_threefield, {"family": "quad4", "params": 2}))
         out.append(("condensed_vs_explicit", case_condensed_vs_explicit, {"family": "hex8", "kind": "Field"}))
-        out.append(("condensed_vs_explicit", case_condensed_vs_explicit, {"family": "hex20", "kind": "Field"}))
         out.append(("uniform", case_uniform, {"dim": 3, "max_paths": 8}))
     return out
